@@ -168,7 +168,7 @@ def run(prog: Program, rep: Report, tier: str):
     rep.check(popped, "R19.2", q, f.loc, "every field name is removed from the class dict (defaults would clash with slots)", "not every field name is removed from the class dict (only the new slots, or none): a defaulted field makes type() raise 'conflicts with class variable', and a re-declared inherited field keeps a class attribute that shadows the base's slot", detail="pop-fields")
     # the original class's own __dict__ / __weakref__ descriptors never travel into the copy of its namespace: they are
     # getset descriptors bound to the *old* type (hasattr(inst, '__dict__') would raise TypeError instead of answering False)
-    for key in ("__dict__", "__weakref__"):
+    for key in ("__dict__", "__weakref__", "__slotnames__"):
         on_all = bool(rets)
         for pth in rets:
             removed = False
@@ -181,6 +181,9 @@ def run(prog: Program, rep: Report, tier: str):
                     removed = True
             if not removed:
                 on_all = False
+        if key == "__slotnames__":
+            rep.check(on_all, "R19.2", q, f.loc, "the copyreg cache '__slotnames__' of the original class does not travel into the copied namespace", "the copied class namespace keeps '__slotnames__': copying or pickling any instance of the original class makes CPython cache `__slotnames__ = []` in its __dict__; the slotted class is then born with that stale cache, its slot values are left out of the state, and copy.copy / deepcopy / pickle of every instance fail (TypeError: cannot pickle ... object) or lose the fields", detail="descriptor-__slotnames__")
+            continue
         rep.check(on_all, "R19.2", q, f.loc, f"the original class's '{key}' descriptor is removed from the copied namespace on every path", f"the copied class namespace keeps the original class's '{key}' descriptor when the flag is off (it is only popped as a field name when the flag is on): the descriptor belongs to the old type, so hasattr(inst, '{key}') raises TypeError instead of returning False, inspect.getmembers(inst) fails", detail=f"descriptor-{key}")
     # R19.3
     new_cls = None
